@@ -58,22 +58,19 @@ Qed.
 
 Lemma sys_tag j c m x : Forall (tag_ok j) (cancelled m c x).
 Proof.
-  apply Forall_forall. intros i Hi. unfold cancelled in Hi. apply in_flat_map in Hi. destruct Hi as (n & _ & Hn).
-  destruct (existsb _ _); [destruct Hn as [<-|[]]; exact I|destruct Hn].
+  apply Forall_forall. intros i Hi. destruct (cancelled_in _ _ _ _ Hi) as [(id & ->)|(id & ->)]; exact I.
 Qed.
 
 Lemma cancelled_no_reset m' m c x : existsb (is_reset m') (cancelled m c x) = false.
 Proof.
   apply not_true_is_false. intros H. apply existsb_exists in H. destruct H as (i & Hi & Hr).
-  unfold cancelled in Hi. apply in_flat_map in Hi. destruct Hi as (n & _ & Hn).
-  destruct (existsb _ _); [destruct Hn as [<-|[]]; discriminate|destruct Hn].
+  destruct (cancelled_in _ _ _ _ Hi) as [(id & ->)|(id & ->)]; discriminate.
 Qed.
 
 Lemma cancelled_no_req m c x : existsb is_req (cancelled m c x) = false.
 Proof.
   apply not_true_is_false. intros H. apply existsb_exists in H. destruct H as (i & Hi & Hr).
-  unfold cancelled in Hi. apply in_flat_map in Hi. destruct Hi as (n & _ & Hn).
-  destruct (existsb _ _); [destruct Hn as [<-|[]]; discriminate|destruct Hn].
+  destruct (cancelled_in _ _ _ _ Hi) as [(id & ->)|(id & ->)]; discriminate.
 Qed.
 
 (* what one module event does, given that its callback keeps the invariant *)
@@ -94,18 +91,10 @@ Proof.
   assert (Hnr : count_resets m (x_log s) = 0%nat) by (apply count_resets_none; rewrite Hlu; apply (usr_no_reset m m lu Uu)).
   destruct (shut (w_mod (x_w s) m)) as [r|] eqn:Es; cbn [fst snd].
   - cbn [some_b] in cq.
-    assert (Hmod : forall w0, w_mod (match r with Some t => set_fes (set_mod w0 m
-              {| active := false; inc := inc (w_mod (x_w s) m) + 1; bud := bud (w_mod (x_w s) m); shut := None;
-                 nw := nw_bump now n; timers := []; ready := []; tpanics := tpanics (w_mod (x_w s) m); catchf := catchf (w_mod (x_w s) m) |}) (fes_add t (EvRestart m) (w_fes (set_mod w0 m
-              {| active := false; inc := inc (w_mod (x_w s) m) + 1; bud := bud (w_mod (x_w s) m); shut := None;
-                 nw := nw_bump now n; timers := []; ready := []; tpanics := tpanics (w_mod (x_w s) m); catchf := catchf (w_mod (x_w s) m) |})))
-              | None => set_mod w0 m
-              {| active := false; inc := inc (w_mod (x_w s) m) + 1; bud := bud (w_mod (x_w s) m); shut := None;
-                 nw := nw_bump now n; timers := []; ready := []; tpanics := tpanics (w_mod (x_w s) m); catchf := catchf (w_mod (x_w s) m) |} end) m =
-              {| active := false; inc := inc (w_mod (x_w s) m) + 1; bud := bud (w_mod (x_w s) m); shut := None;
-                 nw := nw_bump now n; timers := []; ready := []; tpanics := tpanics (w_mod (x_w s) m); catchf := catchf (w_mod (x_w s) m) |}).
-    { intros w0. destruct r; wsimpl; rewrite N.eqb_refl; reflexivity. }
-    cbn [inc bud tpanics nw set_nw]. rewrite Hmod. cbn [inc]. split; [|split; [|split]].
+    assert (Hmod : forall w0 x1, w_mod (match r with Some t => set_fes (set_mod w0 m x1) (fes_add t (EvRestart m) (w_fes (set_mod w0 m x1)))
+              | None => set_mod w0 m x1 end) m = x1).
+    { intros w0 x1. destruct r; wsimpl; rewrite N.eqb_refl; reflexivity. }
+    cbn [inc bud tfin nw set_nw]. rewrite Hmod. cbn [inc]. split; [|split; [|split]].
     + unfold TI. rewrite Hmod. cbn [ready timers shut]. repeat split; constructor.
     + apply Forall_app. split; [exact cg|]. apply Forall_app. split; [apply sys_tag|constructor; [exact I|constructor]].
     + rewrite !count_resets_app, Hnr, (count_resets_none m _ (cancelled_no_reset m m _ _)).
@@ -166,8 +155,8 @@ Lemma act_st_sys_tail p l c m x t i : act_st p l <> None -> act_st p (l ++ cance
 Proof.
   rewrite act_st_app. destruct (act_st p l) as [q|]; [intros _|intros H; exact H].
   rewrite act_st_app. assert (E : act_st q (cancelled m c x) = Some q).
-  { unfold cancelled. induction (seq 0 (length (c_tasks c))) as [|n ns IH]; cbn [flat_map]; [reflexivity|].
-    destruct (existsb _ _); cbn [app act_st]; exact IH. }
+  { pose proof (cancelled_in m c x) as Hin. induction (cancelled m c x) as [|i0 l0 IH]; [reflexivity|].
+    destruct (Hin i0 (or_introl eq_refl)) as [(id & ->)|(id & ->)]; cbn [act_st]; apply IH; intros i1 H1; apply Hin; right; exact H1. }
   rewrite E. discriminate.
 Qed.
 
@@ -380,7 +369,7 @@ Proof.
   assert (Hn' : forall m c, ~ In (IPanic m 0 c) l) by (intros m0 c1 C; apply (Hn m0 c1); right; exact C).
   destruct Hin as [->|Hin].
   - cbn [act_st] in Hs. destruct a; [reflexivity|]. cbn [orb] in Hs. contradiction.
-  - destruct i as [m0 c0 t0 a0| | | | | |m0 who cc| | | |]; cbn [act_st] in Hs; try (eapply IH; eauto; fail).
+  - destruct i as [m0 c0 t0 a0| | | | | |m0 who cc| | | | | |]; cbn [act_st] in Hs; try (eapply IH; eauto; fail).
     + destruct a0; cbn [orb] in Hs; [eapply IH; eauto|contradiction].
     + destruct who; [exfalso; apply (Hn m0 cc); left; reflexivity|eapply IH; eauto].
 Qed.
